@@ -56,6 +56,9 @@ pub fn futex(a: [usize; 6]) -> usize {
     let op = a[1] & 0x7f;
     let cur = s.cur.unwrap_or(0);
     let aid = s.loc_id(addr);
+    // private and shared operations on one address use different wait queues (as in the kernel):
+    // a wait with one kind of key is not woken by a wake with the other
+    let key = if a[1] & 128 != 0 { addr | 1 << 63 } else { addr };
     match op {
         0 => {
             // FUTEX_WAIT: value check and enqueue are one simulator step
@@ -85,12 +88,12 @@ pub fn futex(a: [usize; 6]) -> usize {
             } else {
                 None
             };
-            s.futexq.push((addr, cur));
+            s.futexq.push((key, cur));
             s.count("futex.parked");
             match block("futex_wait", deadline, false) {
                 Wake::Timeout => {
                     let s = sim().unwrap();
-                    s.futexq.retain(|&(ad, t)| !(ad == addr && t == cur));
+                    s.futexq.retain(|&(ad, t)| !(ad == key && t == cur));
                     neg(ETIMEDOUT)
                 }
                 _ => 0,
@@ -107,7 +110,7 @@ pub fn futex(a: [usize; 6]) -> usize {
                     .futexq
                     .iter()
                     .enumerate()
-                    .filter(|(_, &(ad, _))| ad == addr)
+                    .filter(|(_, &(ad, _))| ad == key)
                     .map(|(i, _)| i)
                     .collect();
                 if cands.is_empty() {
